@@ -101,13 +101,14 @@ func VerifC18_AlertLimit() {
 		}
 		// an optional re-send of an alert admitted at the start (it may have expired in the
 		// meantime and, without a GC, still sit in the store), before or after the fresh ones
-		hb, hbLast := vfBool("heartbeat"), vfBool("heartbeatAfterFresh")
+		hb := round == 0 && vfBool("heartbeat") // (the second round of the thorough tier has no re-send)
+		hbLast := hb && vfBool("heartbeatAfterFresh")
 		if hb && !hbLast {
 			h.set(vfChoice("heartbeatOf", 1+vfTier()), vfSeconds("end", 1, 3600))
 		}
 		extra := n
 		if round > 0 {
-			extra = 2
+			extra = 1
 		}
 		for j := 0; j < extra; j++ {
 			h.set(10+10*round+j, vfSeconds("end", 1, 3600))
